@@ -13,7 +13,18 @@ use saito_core::core::consensus::blockchain_sync_state::BlockchainSyncState;
 use saito_core::core::consensus::peers::peer::Peer;
 use saito_core::core::consensus::peers::peer_collection::PeerCollection;
 use saito_core::core::consensus::wallet::Wallet;
+use saito_core::core::consensus::mempool::Mempool;
+use saito_core::core::defs::{StatVariable, STAT_BIN_COUNT};
+use saito_core::core::io::network::Network;
+use saito_core::core::io::network_event::NetworkEvent;
+use saito_core::core::io::storage::Storage;
+use saito_core::core::process::keep_time::{KeepTime, Timer};
+use saito_core::core::process::process_event::ProcessEvent;
+use saito_core::core::routing_thread::{RoutingStats, RoutingThread};
+use saito_core::core::util::configuration::Configuration;
+use std::sync::Mutex;
 use tokio::sync::RwLock;
+use verif_harness::world::{Disk, MemIo, Params};
 use verif_harness::common::{Args, Summary};
 use verif_harness::gal;
 use verif_harness::rng::Rng;
@@ -485,6 +496,145 @@ fn gen_exhaustive(depth: usize) -> Vec<Case> {
     out
 }
 
+struct FixedClock;
+impl KeepTime for FixedClock {
+    fn get_timestamp_in_ms(&self) -> u64 {
+        10_000
+    }
+}
+
+/// The routing layer's side of the scheduler: a real RoutingThread receives
+/// NetworkEvent::BlockFetchFailed for a fetch in flight; exactly that entry must become Failed
+/// and be requested again by the next selection round (oracle only, no model case).
+fn routed_failure_cases(rt: &tokio::runtime::Runtime, summary: &mut Summary, first_case: usize) -> Vec<String> {
+    let mut descs = vec![];
+    let mut case_no = first_case;
+    // (peer, batch, announced (id, hash) list, which of them fails)
+    let scenarios: Vec<(u64, u64, Vec<(u64, u64)>, usize)> = vec![
+        (1, 2, vec![(5, 51), (6, 61), (7, 71)], 0),
+        (2, 3, vec![(9, 91), (9, 92), (10, 101)], 1),
+        (3, 1, vec![(4, 41), (8, 81)], 0),
+        (7, 2, vec![(7, 77), (3, 33)], 1),
+    ];
+    for (peer, batch, announced, fail_ix) in scenarios {
+        let desc = format!(
+            "{{\"case\":{},\"kind\":\"routed-fetch-failure\",\"peer\":{},\"batch\":{},\"announced_id_hash\":[{}],\"failing_id_hash\":[{},{}]}}",
+            case_no,
+            peer,
+            batch,
+            announced.iter().map(|(i, h)| format!("[{},{}]", i, h)).collect::<Vec<_>>().join(","),
+            announced[fail_ix].0,
+            announced[fail_ix].1
+        );
+        let outcome = catch_unwind(AssertUnwindSafe(|| {
+            rt.block_on(async {
+                let wallet = Arc::new(RwLock::new(Wallet::new([1u8; 32], [2u8; 33])));
+                let c = Params::default().cfg();
+                let cfg: Arc<RwLock<dyn Configuration + Send + Sync>> = Arc::new(RwLock::new(c));
+                let mut pc = PeerCollection::default();
+                let mut p = Peer::new(peer);
+                p.block_fetch_url = format!("http://peer{}/block/", peer);
+                pc.index_to_peers.insert(peer, p);
+                let peers = Arc::new(RwLock::new(pc));
+                let disk = Arc::new(Mutex::new(Disk::default()));
+                let timer = Timer { time_reader: Arc::new(FixedClock), hasten_multiplier: 1, start_time: 0 };
+                let blockchain = Arc::new(RwLock::new(Blockchain::new(wallet.clone(), 100, 0, 60)));
+                let mempool = Arc::new(RwLock::new(Mempool::new(wallet.clone())));
+                let (tx_cons, _rx_cons) = tokio::sync::mpsc::channel(1000);
+                let (tx_miner, _rx_miner) = tokio::sync::mpsc::channel(1000);
+                let (tx_stat, _rx_stat) = tokio::sync::mpsc::channel(100_000);
+                let (tx_verif, _rx_verif) = tokio::sync::mpsc::channel(1000);
+                let _ = StatVariable::new("x".to_string(), STAT_BIN_COUNT, tx_stat.clone());
+                let mut routing = RoutingThread {
+                    blockchain_lock: blockchain.clone(),
+                    mempool_lock: mempool.clone(),
+                    sender_to_consensus: tx_cons,
+                    sender_to_miner: tx_miner,
+                    config_lock: cfg.clone(),
+                    timer: timer.clone(),
+                    wallet_lock: wallet.clone(),
+                    network: Network::new(Box::new(MemIo::new(disk.clone())), peers.clone(), wallet.clone(), cfg.clone(), timer.clone()),
+                    storage: Storage::new(Box::new(MemIo::new(disk.clone()))),
+                    reconnection_timer: 0,
+                    peer_removal_timer: 0,
+                    peer_file_write_timer: 0,
+                    last_emitted_block_fetch_count: 0,
+                    stats: RoutingStats::new(tx_stat.clone()),
+                    senders_to_verification: vec![tx_verif],
+                    last_verification_thread_index: 0,
+                    stat_sender: tx_stat.clone(),
+                    blockchain_sync_state: BlockchainSyncState::new(batch as usize),
+                };
+                for (id, h) in &announced {
+                    routing.blockchain_sync_state.add_entry(h32(*h), *id, peer, peers.clone()).await;
+                }
+                {
+                    let bc = blockchain.read().await;
+                    routing.blockchain_sync_state.verif_build_peer_block_picture(&bc);
+                }
+                // hand out as much as the quota allows
+                let first = routing.blockchain_sync_state.get_blocks_to_fetch_per_peer();
+                let handed: Vec<(u64, u64)> = first.get(&peer).map(|v| v.iter().map(|(h, id)| (*id, unh(h))).collect()).unwrap_or_default();
+                let (fid, fh) = announced[fail_ix];
+                if !handed.contains(&(fid, fh)) {
+                    // not in flight in this scenario (quota): fail an entry that is
+                    return (handed.clone(), None, vec![], vec![]);
+                }
+                let before = routing.blockchain_sync_state.verif_snapshot();
+                routing
+                    .process_network_event(NetworkEvent::BlockFetchFailed { block_hash: h32(fh), peer_index: peer, block_id: fid })
+                    .await;
+                let after = routing.blockchain_sync_state.verif_snapshot();
+                // a failed entry is put back into the queue by one round and handed out by the next
+                let mut again: Vec<(u64, u64)> = vec![];
+                for _ in 0..2 {
+                    let round = routing.blockchain_sync_state.get_blocks_to_fetch_per_peer();
+                    again.extend(round.get(&peer).map(|v| v.iter().map(|(h, id)| (*id, unh(h))).collect::<Vec<_>>()).unwrap_or_default());
+                }
+                (handed, Some((before, after)), again, vec![(fid, fh)])
+            })
+        }));
+        summary.count("kind", "routed-fetch-failure");
+        match outcome {
+            Err(_) => summary.oracle_failure(case_no, "routing layer panicked while handling BlockFetchFailed", &desc),
+            Ok((handed, snaps, again, failed)) => {
+                if let Some((before, after)) = snaps {
+                    let (fid, fh) = failed[0];
+                    let st = |snap: &Vec<(u64, Vec<(u64, [u8; 32], u8, u32)>)>, id: u64, h: u64| {
+                        snap.iter().find(|(p, _)| *p == peer).and_then(|(_, v)| v.iter().find(|e| e.0 == id && unh(&e.1) == h).map(|e| (e.2, e.3)))
+                    };
+                    if st(&before, fid, fh).map(|x| x.0) != Some(1) {
+                        summary.oracle_failure(case_no, "harness: the failing entry was not in flight", &desc);
+                    }
+                    if st(&after, fid, fh).map(|x| x.0) != Some(3) {
+                        summary.oracle_failure(
+                            case_no,
+                            &format!(
+                                "BlockFetchFailed for block ({},{}) of peer {} delivered through the routing layer did not mark that fetch as failed (status {:?}): it is never retried and keeps its quota slot",
+                                fid, fh, peer, st(&after, fid, fh)
+                            ),
+                            &desc,
+                        );
+                    }
+                    for (p, v) in &after {
+                        for e in v {
+                            if (*p, e.0, unh(&e.1)) != (peer, fid, fh) && st(&before, e.0, unh(&e.1)) != Some((e.2, e.3)) {
+                                summary.oracle_failure(case_no, &format!("BlockFetchFailed for ({},{}) changed another entry ({},{})", fid, fh, e.0, unh(&e.1)), &desc);
+                            }
+                        }
+                    }
+                    if !again.contains(&(fid, fh)) {
+                        summary.oracle_failure(case_no, &format!("the failed fetch ({},{}) is not requested again within two rounds (handed out first: {:?}, then: {:?})", fid, fh, handed, again), &desc);
+                    }
+                }
+            }
+        }
+        descs.push(desc);
+        case_no += 1;
+    }
+    descs
+}
+
 fn main() {
     let args = Args::parse();
     let mut rng = Rng::new(args.seed);
@@ -548,7 +698,13 @@ fn main() {
         }
         summary.case_descs.push(desc);
     }
-    summary.evaluations = cases.len() as u64;
+    // routed venue (oracle only): trivial model cases keep the case numbering aligned
+    let routed = routed_failure_cases(&rt, &mut summary, cases.len());
+    for d in routed {
+        coq_cases.push("((1, [], []), [])".to_string());
+        summary.case_descs.push(d);
+    }
+    summary.evaluations = summary.case_descs.len() as u64;
     let header = "From Saito Require Import Base SyncState.\n\
         Definition check (c : (N * list N * list op) * list (list (list N))) : bool :=\n\
         let '((batch, urls, ops), expected) := c in eqb_lllN (trace batch urls init ops) expected.";
